@@ -522,6 +522,7 @@ func main() {
 	if r.Thorough() {
 		r.RunArch386Tier("quick") // the quick sweep again as a 32-bit program (about ten times slower there)
 	}
+	os.RemoveAll(tmp) // Finish exits the process: the deferred removal would not run
 	r.Finish()
 }
 
